@@ -1,5 +1,5 @@
 (* CompileSemProofs.v — compile_correct for statements with control flow:
-   assignments to globals, if / else (one condition), while — nested.
+   assignments to globals, if / else-if / else chains, while — nested.
    Part 1: a fuel-indexed big-step semantics; the LAYOUT relation describing
    the final code of a compiled statement; the simulation theorem: the VM
    model run on code laid out that way reaches the globals of the semantics
@@ -22,12 +22,7 @@ Fixpoint exec_s (fuel : nat) (s : stmt) (env : genv) {struct fuel} : option genv
       | SDecl n e => option_map (upd env n) (eval_expr env e)
       | SAssign (EVar n) e => option_map (upd env n) (eval_expr env e)
       | SEmpty => Some env
-      | SIf c b CNil els =>
-          match eval_expr env c with
-          | Some (VBool true) => exec_l f b env
-          | Some (VBool false) => match els with NoElse => Some env | Else eb => exec_l f eb env end
-          | _ => None
-          end
+      | SIf c b elifs els => exec_c f (CCons c b elifs) els env
       | SWhile c b =>
           match eval_expr env c with
           | Some (VBool true) => match exec_l f b env with Some env1 => exec_s f (SWhile c b) env1 | None => None end
@@ -45,24 +40,45 @@ with exec_l (fuel : nat) (l : slist) (env : genv) {struct fuel} : option genv :=
       | SNil => Some env
       | SCons s1 t => match exec_s f s1 env with Some env1 => exec_l f t env1 | None => None end
       end
+  end
+(* the condition chain of an if statement: the first true condition runs its block *)
+with exec_c (fuel : nat) (l : clist) (els : oslist) (env : genv) {struct fuel} : option genv :=
+  match fuel with
+  | O => None
+  | S f =>
+      match l with
+      | CNil => match els with NoElse => Some env | Else eb => exec_l f eb env end
+      | CCons c b t =>
+          match eval_expr env c with
+          | Some (VBool true) => exec_l f b env
+          | Some (VBool false) => exec_c f t els env
+          | _ => None
+          end
+      end
   end.
 
 (* the deepest expression of a statement *)
 Fixpoint sdepth (s : stmt) : N :=
   match s with
   | SDecl _ e | SAssign _ e => edepth e
-  | SIf c b _ els => N.max (edepth c) (N.max (ldepth b) (match els with NoElse => 0 | Else eb => ldepth eb end))
+  | SIf c b elifs els => N.max (edepth c) (N.max (ldepth b) (N.max (cdepth elifs) (match els with NoElse => 0 | Else eb => ldepth eb end)))
   | SWhile c b => N.max (edepth c) (ldepth b)
   | _ => 0
   end
 with ldepth (l : slist) : N :=
-  match l with SNil => 0 | SCons s t => N.max (sdepth s) (ldepth t) end.
+  match l with SNil => 0 | SCons s t => N.max (sdepth s) (ldepth t) end
+with cdepth (l : clist) : N :=
+  match l with CNil => 0 | CCons c b t => N.max (edepth c) (N.max (ldepth b) (cdepth t)) end.
 
 (* ---------- the layout of compiled statements ---------- *)
 Definition same_resolve (a b : symtab) : Prop := forall n, st_resolve n a = st_resolve n b.
 
 Definition jbytes (o : opc) (T : N) (bs : list N) : Prop :=
   exists hi lo, bs = [N_of_opc o; hi; lo] /\ hi * 256 + lo = T.
+
+(* an end-of-block jump: to End, or still holding the placeholder *)
+Definition jshape (fin : bool) (End : N) (je : list N) : Prop :=
+  if fin then jbytes Jump End je else exists h0 l0, je = [N_of_opc Jump; h0; l0].
 
 Inductive LAY : stmt -> cstate -> cstate -> list N -> Prop :=
 | lay_assign n e st st1 st' y seg_e sg :
@@ -80,39 +96,46 @@ Inductive LAY : stmt -> cstate -> cstate -> list N -> Prop :=
     jbytes Jump (N.of_nat (List.length (ccode st))) jb ->
     cconsts st' = cconsts stb -> csym st' = csym st ->
     LAY (SWhile c b) st st' (seg_c ++ jf ++ seg_b ++ jb)
-| lay_if_noelse c b st st1 stx stb st' seg_c seg_b jf je :
-    efrag c = true -> compile_expr true c st = COk st1 -> ccode st1 = ccode st ++ seg_c ->
-    cconsts stx = cconsts st1 -> same_resolve (csym stx) (csym st) ->
-    N.of_nat (List.length (ccode stx)) = N.of_nat (List.length (ccode st1)) + 3 ->
-    LAYL b stx stb seg_b ->
-    jbytes JumpOnFalse (N.of_nat (List.length (ccode st)) + N.of_nat (List.length (seg_c ++ jf ++ seg_b ++ je))) jf ->
-    jbytes Jump (N.of_nat (List.length (ccode st)) + N.of_nat (List.length (seg_c ++ jf ++ seg_b ++ je))) je ->
-    cconsts st' = cconsts stb -> csym st' = csym st ->
-    LAY (SIf c b CNil NoElse) st st' (seg_c ++ jf ++ seg_b ++ je)
-| lay_if_else c b eb st st1 stx stb sty ste st' seg_c seg_b seg_e jf je :
-    efrag c = true -> compile_expr true c st = COk st1 -> ccode st1 = ccode st ++ seg_c ->
-    cconsts stx = cconsts st1 -> same_resolve (csym stx) (csym st) ->
-    N.of_nat (List.length (ccode stx)) = N.of_nat (List.length (ccode st1)) + 3 ->
-    LAYL b stx stb seg_b ->
-    (* the else part starts right after the end jump *)
-    cconsts sty = cconsts stb -> same_resolve (csym sty) (csym st) ->
-    N.of_nat (List.length (ccode sty)) = N.of_nat (List.length (ccode stb)) + 3 ->
-    LAYL eb sty ste seg_e ->
-    jbytes JumpOnFalse (N.of_nat (List.length (ccode st)) + N.of_nat (List.length (seg_c ++ jf ++ seg_b ++ je))) jf ->
-    jbytes Jump (N.of_nat (List.length (ccode st)) + N.of_nat (List.length (seg_c ++ jf ++ seg_b ++ je ++ seg_e))) je ->
+| lay_if c b elifs els st ste st' js seg :
+    LAYC true (CCons c b elifs) els st ste (N.of_nat (List.length (ccode st)) + N.of_nat (List.length seg)) js seg ->
     cconsts st' = cconsts ste -> csym st' = csym st ->
-    LAY (SIf c b CNil (Else eb)) st st' (seg_c ++ jf ++ seg_b ++ je ++ seg_e)
+    LAY (SIf c b elifs els) st st' seg
 with LAYL : slist -> cstate -> cstate -> list N -> Prop :=
 | layl_nil st : LAYL SNil st st []
 | layl_cons s t st st1 st2 seg1 seg2 :
     LAY s st st1 seg1 ->
     N.of_nat (List.length (ccode st1)) = N.of_nat (List.length (ccode st)) + N.of_nat (List.length seg1) ->
     LAYL t st1 st2 seg2 ->
-    LAYL (SCons s t) st st2 (seg1 ++ seg2).
+    LAYL (SCons s t) st st2 (seg1 ++ seg2)
+(* a chain of `cond / block` with its else part; every block ends with a jump
+   to End (fin = true) or with a jump whose operand is still the placeholder
+   (fin = false: the code before compileIfStatement's final patching); js are
+   the positions of those jumps *)
+with LAYC : bool -> clist -> oslist -> cstate -> cstate -> N -> list Z -> list N -> Prop :=
+| layc_nil_noelse fin st End : End = N.of_nat (List.length (ccode st)) -> LAYC fin CNil NoElse st st End [] []
+| layc_nil_else fin eb st sty ste End seg_e :
+    cconsts sty = cconsts st -> same_resolve (csym sty) (csym st) ->
+    List.length (ccode sty) = List.length (ccode st) ->
+    LAYL eb sty ste seg_e -> End = N.of_nat (List.length (ccode st)) + N.of_nat (List.length seg_e) ->
+    LAYC fin CNil (Else eb) st ste End [] seg_e
+| layc_cons fin c b t els st st1 stx stb sty st' End js seg_c seg_b jf je seg_r :
+    efrag c = true -> compile_expr true c st = COk st1 -> ccode st1 = ccode st ++ seg_c ->
+    cconsts stx = cconsts st1 -> same_resolve (csym stx) (csym st) ->
+    N.of_nat (List.length (ccode stx)) = N.of_nat (List.length (ccode st1)) + 3 ->
+    LAYL b stx stb seg_b ->
+    jbytes JumpOnFalse (N.of_nat (List.length (ccode st)) + N.of_nat (List.length (seg_c ++ jf ++ seg_b ++ je))) jf ->
+    jshape fin End je ->
+    cconsts sty = cconsts stb -> same_resolve (csym sty) (csym st) ->
+    N.of_nat (List.length (ccode sty)) = N.of_nat (List.length (ccode stb)) + 3 ->
+    LAYC fin t els sty st' End js seg_r ->
+    LAYC fin (CCons c b t) els st st' End
+         (Z.of_nat (List.length (ccode st) + List.length (seg_c ++ jf ++ seg_b)) :: js)
+         (seg_c ++ jf ++ seg_b ++ je ++ seg_r).
 
 Scheme LAY_mind := Induction for LAY Sort Prop
-  with LAYL_mind := Induction for LAYL Sort Prop.
-Combined Scheme LAY_mutind from LAY_mind, LAYL_mind.
+  with LAYL_mind := Induction for LAYL Sort Prop
+  with LAYC_mind := Induction for LAYC Sort Prop.
+Combined Scheme LAY_mutind from LAY_mind, LAYL_mind, LAYC_mind.
 
 (* ---------- machine steps for the two jumps ---------- *)
 Lemma step_jof p vs pre post jf T b rest :
@@ -171,9 +194,22 @@ Lemma efrag_consts e st st1 : efrag e = true -> compile_expr true e st = COk st1
   (exists newc, cconsts st1 = cconsts st ++ newc) /\ csym st1 = csym st.
 Proof. intros HF HC. destruct (efrag_sl e HF st st1 HC) as (A & ops & newc & _ & C & _). split; [eauto|exact A]. Qed.
 
+Ltac chain_consts :=
+  eexists;
+  repeat match goal with H : cconsts ?a = _ |- context [cconsts ?a] => rewrite H end;
+  rewrite <- ?app_assoc; reflexivity.
+Ltac chain_resolve :=
+  let n := fresh "n" in intro n;
+  repeat match goal with
+         | H : same_resolve ?a _ |- context [st_resolve n ?a] => rewrite (H n)
+         | H : csym ?a = _ |- context [csym ?a] => rewrite H
+         end; reflexivity.
+
 Lemma lay_frame :
   (forall s st st' seg, LAY s st st' seg -> (exists newc, cconsts st' = cconsts st ++ newc) /\ same_resolve (csym st') (csym st)) /\
-  (forall l st st' seg, LAYL l st st' seg -> (exists newc, cconsts st' = cconsts st ++ newc) /\ same_resolve (csym st') (csym st)).
+  (forall l st st' seg, LAYL l st st' seg -> (exists newc, cconsts st' = cconsts st ++ newc) /\ same_resolve (csym st') (csym st)) /\
+  (forall fin l els st st' End js seg, LAYC fin l els st st' End js seg ->
+     (exists newc, cconsts st' = cconsts st ++ newc) /\ same_resolve (csym st') (csym st)).
 Proof.
   apply LAY_mutind; intros;
     repeat match goal with
@@ -181,26 +217,32 @@ Proof.
         let nc := fresh "nc" in let K := fresh "K" in
         destruct (efrag_consts e st st1 HF HC) as [(nc & K) _]; clear HC
     | H : (exists newc, _) /\ _ |- _ => let nb := fresh "nb" in let Kb := fresh "Kb" in let Sb := fresh "Sb" in destruct H as [(nb & Kb) Sb]
-    end.
-  - split; [exists nc; congruence|apply same_resolve_eq; assumption].
-  - split; [exists []; rewrite app_nil_r; reflexivity|apply same_resolve_refl].
-  - split; [exists (nc ++ nb); rewrite app_assoc; congruence|apply same_resolve_eq; assumption].
-  - split; [exists (nc ++ nb); rewrite app_assoc; congruence|apply same_resolve_eq; assumption].
-  - split; [first [exists (nc ++ nb ++ nb0); rewrite !app_assoc; congruence|exists (nc ++ nb0 ++ nb); rewrite !app_assoc; congruence]|apply same_resolve_eq; assumption].
-  - split; [exists []; rewrite app_nil_r; reflexivity|apply same_resolve_refl].
-  - split; [first [exists (nb ++ nb0); rewrite app_assoc; congruence|exists (nb0 ++ nb); rewrite app_assoc; congruence]|].
-    intro n. first [rewrite Sb0, Sb; reflexivity|rewrite Sb, Sb0; reflexivity].
+    end;
+    (split; [first [exists []; rewrite app_nil_r; reflexivity | chain_consts]
+            |first [apply same_resolve_refl | chain_resolve]]).
+Qed.
+
+Lemma lay_len :
+  (forall s st st' seg, LAY s st st' seg -> True) /\
+  (forall l st st' seg, LAYL l st st' seg ->
+     N.of_nat (List.length (ccode st')) = N.of_nat (List.length (ccode st)) + N.of_nat (List.length seg)) /\
+  (forall fin l els st st' End js seg, LAYC fin l els st st' End js seg ->
+     End = N.of_nat (List.length (ccode st)) + N.of_nat (List.length seg)).
+Proof.
+  apply LAY_mutind; intros; auto.
+  - simpl. lia.
+  - rewrite app_length, Nat2N.inj_add. lia.
+  - simpl. lia.
+  - subst End. pose proof (jbytes_len _ _ _ j) as Lj.
+    assert (Lje : List.length je = 3%nat).
+    { destruct fin; cbn [jshape] in j0; [apply (jbytes_len _ _ _ j0)|destruct j0 as (hh & ll & ->); reflexivity]. }
+    apply (f_equal (@List.length N)) in e1. rewrite app_length in e1.
+    rewrite !app_length, Lj, Lje, !Nat2N.inj_add. lia.
 Qed.
 
 Lemma layl_len : forall l st st' seg, LAYL l st st' seg ->
   N.of_nat (List.length (ccode st')) = N.of_nat (List.length (ccode st)) + N.of_nat (List.length seg).
-Proof.
-  apply (LAYL_mind (fun _ _ _ _ _ => True)
-           (fun l st st' seg _ => N.of_nat (List.length (ccode st')) = N.of_nat (List.length (ccode st)) + N.of_nat (List.length seg)));
-    intros; auto.
-  - simpl. lia.
-  - rewrite app_length, Nat2N.inj_add. lia.
-Qed.
+Proof. apply lay_len. Qed.
 
 (* ---------- the simulation ---------- *)
 Definition mstate_ok (G : nat) (st : cstate) (env : genv) (vs : vmstate) : Prop :=
@@ -220,6 +262,16 @@ Definition SIMl (fuel : nat) (l : slist) (st st' : cstate) (seg : list N) : Prop
     ip vs = N.of_nat (List.length pre) -> mstate_ok G st env vs ->
     sym_static (csym st) -> slots_distinct (csym st) -> ldepth l <= StackSize ->
     exists vs', reaches p vs vs' /\ ip vs' = ip vs + N.of_nat (List.length seg) /\ mstate_ok G st env' vs'.
+
+Definition odepth (els : oslist) : N := match els with NoElse => 0 | Else eb => ldepth eb end.
+
+(* a chain ends at End, whichever block ran *)
+Definition SIMc (fuel : nat) (l : clist) (els : oslist) (st st' : cstate) (End : N) (seg : list N) : Prop :=
+  forall G env env', exec_c fuel l els env = Some env' -> forall p vs pre post,
+    pcode p = pre ++ seg ++ post -> List.length pre = List.length (ccode st) -> consts_of p st' ->
+    ip vs = N.of_nat (List.length pre) -> mstate_ok G st env vs ->
+    sym_static (csym st) -> slots_distinct (csym st) -> cdepth l <= StackSize -> odepth els <= StackSize ->
+    exists vs', reaches p vs vs' /\ ip vs' = End /\ mstate_ok G st env' vs'.
 
 Lemma store_global' env n v y sym (g : list value) :
   slots_distinct sym -> st_resolve n sym = Some y -> (N.to_nat (sidx y) < List.length g)%nat ->
@@ -261,11 +313,12 @@ Qed.
 
 Theorem sim_all : forall fuel,
   (forall s st st' seg, LAY s st st' seg -> SIMs fuel s st st' seg) /\
-  (forall l st st' seg, LAYL l st st' seg -> SIMl fuel l st st' seg).
+  (forall l st st' seg, LAYL l st st' seg -> SIMl fuel l st st' seg) /\
+  (forall l els st st' End js seg, LAYC true l els st st' End js seg -> SIMc fuel l els st st' End seg).
 Proof.
-  induction fuel as [|f [IHs IHl]].
-  - split; intros; intros G env env' HX; simpl in HX; discriminate.
-  - split.
+  induction fuel as [|f (IHs & IHl & IHc)].
+  - repeat split; intros; intros G env env' HX; simpl in HX; discriminate.
+  - split; [|split].
     + intros s st st' seg HL. inversion HL; subst; intros G env env' HX p vs pre post HP HLen HK HI HM HSS HSD HDp.
       * (* assign *)
         cbn [exec_s] in HX. destruct (eval_expr env e) as [v|] eqn:HE; [|discriminate]. inversion HX; subst env'.
@@ -291,7 +344,7 @@ Proof.
         cbn [exec_s] in HX. inversion HX; subst. exists vs. split; [apply reaches_refl|]. split; [simpl; lia|exact HM].
       * (* while *)
         cbn [exec_s] in HX. cbn [sdepth] in HDp.
-        destruct (lay_frame) as [_ LF]. destruct (LF _ _ _ _ H5) as [(nb & Kb) Sb].
+        destruct (lay_frame) as (_ & LF & _). destruct (LF _ _ _ _ H5) as [(nb & Kb) Sb].
         destruct (efrag_consts c st st1 H H0) as [(nc & K1) S1].
         assert (HKb : consts_of p stb) by (destruct HK as (more & HK); exists more; rewrite HK, H8; reflexivity).
         assert (HK1 : consts_of p st1).
@@ -342,121 +395,18 @@ Proof.
            eexists. split; [eapply reaches_trans; [exact R1|apply reaches_step; exact R2]|].
            destruct HM as (M1 & M2 & M3 & M4 & M5). split; [simpl; rewrite HI, HLen; reflexivity|].
            unfold mstate_ok, vs1; simpl. repeat split; auto.
-      * (* if without else *)
+      * (* if: the chain *)
         cbn [exec_s] in HX. cbn [sdepth] in HDp.
-        destruct (lay_frame) as [_ LF]. destruct (LF _ _ _ _ H5) as [(nb & Kb) Sb].
-        destruct (efrag_consts c st st1 H H0) as [(nc & K1) S1].
-        assert (HKb : consts_of p stb) by (destruct HK as (more & HK); exists more; rewrite HK, H8; reflexivity).
-        assert (HK1 : consts_of p st1).
-        { apply (consts_of_prefix p st1 stb nb); [rewrite Kb, H2; reflexivity|exact HKb]. }
-        pose proof (jbytes_len _ _ _ H6) as Ljf. pose proof (jbytes_len _ _ _ H7) as Lje.
-        destruct (eval_expr env c) as [[| [] | | | | |]|] eqn:HE; try discriminate.
-        -- pose proof (expr_runs G c st st1 seg_c env (VBool true) p vs pre (jf ++ seg_b ++ je ++ post) H H0 H1 HE HSS
-                         ltac:(rewrite HP, <- !app_assoc; reflexivity) HK1 HI HM ltac:(lia)) as R1.
-           set (vs1 := {| ip := ip vs + N.of_nat (List.length seg_c); ostack := [VBool true]; locals := locals vs; globals := globals vs |}) in *.
-           pose proof (step_jof p vs1 (pre ++ seg_c) (seg_b ++ je ++ post) jf _ true [] H6
-                         ltac:(rewrite HP, <- !app_assoc; reflexivity)
-                         ltac:(unfold vs1; simpl; rewrite HI, app_length; lia) eq_refl) as R2.
-           set (vs2 := {| ip := ip vs1 + 3; ostack := []; locals := locals vs1; globals := globals vs1 |}) in *.
-           destruct HM as (M1 & M2 & M3 & M4 & M5).
-           assert (HM2 : mstate_ok G stx env vs2).
-           { apply (mstate_same G st stx); [exact H3|]. unfold vs2, vs1; simpl. repeat split; auto. }
-           destruct (IHl b stx stb seg_b H5 G env env' HX p vs2 (pre ++ seg_c ++ jf) (je ++ post)) as (vs3 & R3 & I3 & HM3).
-           { rewrite HP, <- !app_assoc. reflexivity. }
-           { rewrite !app_length, Ljf. apply Nat2N.inj. rewrite H4, H1, app_length, !Nat2N.inj_add, HLen. simpl. lia. }
-           { exact HKb. }
-           { unfold vs2, vs1; simpl. rewrite HI, !app_length, Ljf. lia. }
-           { exact HM2. }
-           { apply (sym_static_same (csym st)); assumption. }
-           { apply (slots_distinct_same (csym st)); assumption. }
-           { lia. }
-           pose proof (step_jump p vs3 (pre ++ seg_c ++ jf ++ seg_b) post je _ H7
-                         ltac:(rewrite HP, <- !app_assoc; reflexivity)
-                         ltac:(rewrite I3; unfold vs2, vs1; simpl; rewrite HI, !app_length, Ljf; lia)) as R4.
-           eexists. split; [|split].
-           ++ eapply reaches_trans; [exact R1|]. eapply reaches_trans; [apply reaches_step; exact R2|].
-              eapply reaches_trans; [exact R3|apply reaches_step; exact R4].
-           ++ simpl. rewrite HI, HLen. reflexivity.
-           ++ apply (mstate_same_back G st stx); [exact H3|]. destruct HM3 as (A3 & B3 & C3 & D3 & E3). simpl. repeat split; auto.
-        -- inversion HX; subst env'.
-           pose proof (expr_runs G c st st1 seg_c env (VBool false) p vs pre (jf ++ seg_b ++ je ++ post) H H0 H1 HE HSS
-                         ltac:(rewrite HP, <- !app_assoc; reflexivity) HK1 HI HM ltac:(lia)) as R1.
-           set (vs1 := {| ip := ip vs + N.of_nat (List.length seg_c); ostack := [VBool false]; locals := locals vs; globals := globals vs |}) in *.
-           pose proof (step_jof p vs1 (pre ++ seg_c) (seg_b ++ je ++ post) jf _ false [] H6
-                         ltac:(rewrite HP, <- !app_assoc; reflexivity)
-                         ltac:(unfold vs1; simpl; rewrite HI, app_length; lia) eq_refl) as R2.
-           eexists. split; [eapply reaches_trans; [exact R1|apply reaches_step; exact R2]|].
-           destruct HM as (M1 & M2 & M3 & M4 & M5). split; [simpl; rewrite HI, HLen; reflexivity|].
-           unfold mstate_ok, vs1; simpl. repeat split; auto.
-      * (* if with else *)
-        cbn [exec_s] in HX. cbn [sdepth] in HDp.
-        destruct (lay_frame) as [_ LF]. destruct (LF _ _ _ _ H5) as [(nb & Kb) Sb]. destruct (LF _ _ _ _ H9) as [(ne & Ke) Se].
-        destruct (efrag_consts c st st1 H H0) as [(nc & K1) S1].
-        assert (HKe : consts_of p ste) by (destruct HK as (more & HK); exists more; rewrite HK, H12; reflexivity).
-        assert (HKb : consts_of p stb).
-        { apply (consts_of_prefix p stb ste ne); [rewrite Ke, H6; reflexivity|exact HKe]. }
-        assert (HK1 : consts_of p st1).
-        { apply (consts_of_prefix p st1 stb nb); [rewrite Kb, H2; reflexivity|exact HKb]. }
-        pose proof (jbytes_len _ _ _ H10) as Ljf. pose proof (jbytes_len _ _ _ H11) as Lje.
-        pose proof (layl_len _ _ _ _ H5) as LLb.
-        destruct (eval_expr env c) as [[| [] | | | | |]|] eqn:HE; try discriminate.
-        -- pose proof (expr_runs G c st st1 seg_c env (VBool true) p vs pre (jf ++ seg_b ++ je ++ seg_e ++ post) H H0 H1 HE HSS
-                         ltac:(rewrite HP, <- !app_assoc; reflexivity) HK1 HI HM ltac:(lia)) as R1.
-           set (vs1 := {| ip := ip vs + N.of_nat (List.length seg_c); ostack := [VBool true]; locals := locals vs; globals := globals vs |}) in *.
-           pose proof (step_jof p vs1 (pre ++ seg_c) (seg_b ++ je ++ seg_e ++ post) jf _ true [] H10
-                         ltac:(rewrite HP, <- !app_assoc; reflexivity)
-                         ltac:(unfold vs1; simpl; rewrite HI, app_length; lia) eq_refl) as R2.
-           set (vs2 := {| ip := ip vs1 + 3; ostack := []; locals := locals vs1; globals := globals vs1 |}) in *.
-           destruct HM as (M1 & M2 & M3 & M4 & M5).
-           assert (HM2 : mstate_ok G stx env vs2).
-           { apply (mstate_same G st stx); [exact H3|]. unfold vs2, vs1; simpl. repeat split; auto. }
-           destruct (IHl b stx stb seg_b H5 G env env' HX p vs2 (pre ++ seg_c ++ jf) (je ++ seg_e ++ post)) as (vs3 & R3 & I3 & HM3).
-           { rewrite HP, <- !app_assoc. reflexivity. }
-           { rewrite !app_length, Ljf. apply Nat2N.inj. rewrite H4, H1, app_length, !Nat2N.inj_add, HLen. simpl. lia. }
-           { exact HKb. }
-           { unfold vs2, vs1; simpl. rewrite HI, !app_length, Ljf. lia. }
-           { exact HM2. }
-           { apply (sym_static_same (csym st)); assumption. }
-           { apply (slots_distinct_same (csym st)); assumption. }
-           { lia. }
-           pose proof (step_jump p vs3 (pre ++ seg_c ++ jf ++ seg_b) (seg_e ++ post) je _ H11
-                         ltac:(rewrite HP, <- !app_assoc; reflexivity)
-                         ltac:(rewrite I3; unfold vs2, vs1; simpl; rewrite HI, !app_length, Ljf; lia)) as R4.
-           eexists. split; [|split].
-           ++ eapply reaches_trans; [exact R1|]. eapply reaches_trans; [apply reaches_step; exact R2|].
-              eapply reaches_trans; [exact R3|apply reaches_step; exact R4].
-           ++ simpl. rewrite HI, HLen. reflexivity.
-           ++ apply (mstate_same_back G st stx); [exact H3|]. destruct HM3 as (A3 & B3 & C3 & D3 & E3). simpl. repeat split; auto.
-        -- pose proof (expr_runs G c st st1 seg_c env (VBool false) p vs pre (jf ++ seg_b ++ je ++ seg_e ++ post) H H0 H1 HE HSS
-                         ltac:(rewrite HP, <- !app_assoc; reflexivity) HK1 HI HM ltac:(lia)) as R1.
-           set (vs1 := {| ip := ip vs + N.of_nat (List.length seg_c); ostack := [VBool false]; locals := locals vs; globals := globals vs |}) in *.
-           pose proof (step_jof p vs1 (pre ++ seg_c) (seg_b ++ je ++ seg_e ++ post) jf _ false [] H10
-                         ltac:(rewrite HP, <- !app_assoc; reflexivity)
-                         ltac:(unfold vs1; simpl; rewrite HI, app_length; lia) eq_refl) as R2.
-           set (vs2 := {| ip := N.of_nat (List.length (ccode st)) + N.of_nat (List.length (seg_c ++ jf ++ seg_b ++ je));
-                          ostack := []; locals := locals vs1; globals := globals vs1 |}) in *.
-           destruct HM as (M1 & M2 & M3 & M4 & M5).
-           assert (HM2 : mstate_ok G sty env vs2).
-           { apply (mstate_same G st sty); [exact H7|]. unfold vs2, vs1; simpl. repeat split; auto. }
-           destruct (IHl eb sty ste seg_e H9 G env env' HX p vs2 (pre ++ seg_c ++ jf ++ seg_b ++ je) post) as (vs3 & R3 & I3 & HM3).
-           { rewrite HP, <- !app_assoc. reflexivity. }
-           { assert (X : N.of_nat (List.length (ccode st1)) = N.of_nat (List.length (ccode st)) + N.of_nat (List.length seg_c)) by (rewrite H1, app_length; lia).
-             apply Nat2N.inj. rewrite !app_length, Ljf, Lje. lia. }
-           { exact HKe. }
-           { unfold vs2; simpl. rewrite !app_length, HLen. lia. }
-           { exact HM2. }
-           { apply (sym_static_same (csym st)); assumption. }
-           { apply (slots_distinct_same (csym st)); assumption. }
-           { lia. }
-           exists vs3. split; [|split].
-           ++ eapply reaches_trans; [exact R1|]. eapply reaches_trans; [apply reaches_step; exact R2|exact R3].
-           ++ rewrite I3. unfold vs2; simpl. rewrite HI, HLen, !app_length, !Nat2N.inj_add. lia.
-           ++ apply (mstate_same_back G st sty); [exact H7|exact HM3].
+        destruct (IHc _ _ _ _ _ _ _ H G env env' HX p vs pre post HP HLen) as (vs' & R & I & HM'); auto.
+        { destruct HK as (more & HK); exists more; rewrite HK, H0; reflexivity. }
+        { cbn [cdepth]. lia. }
+        { unfold odepth. lia. }
+        exists vs'. split; [exact R|]. split; [rewrite I, HI, HLen; reflexivity|exact HM'].
     + intros l st st' seg HL. inversion HL; subst; intros G env env' HX p vs pre post HP HLen HK HI HM HSS HSD HDp.
       * cbn [exec_l] in HX. inversion HX; subst. exists vs. split; [apply reaches_refl|]. split; [simpl; lia|exact HM].
       * cbn [exec_l] in HX. cbn [ldepth] in HDp.
         destruct (exec_s f s env) as [env1|] eqn:HX1; [|discriminate].
-        destruct (lay_frame) as [LFs LFl]. destruct (LFs _ _ _ _ H) as [(n1 & K1) S1]. destruct (LFl _ _ _ _ H1) as [(n2 & K2) S2].
+        destruct (lay_frame) as (LFs & LFl & _). destruct (LFs _ _ _ _ H) as [(n1 & K1) S1]. destruct (LFl _ _ _ _ H1) as [(n2 & K2) S2].
         assert (HK1 : consts_of p st1) by (apply (consts_of_prefix p st1 st' n2 K2 HK)).
         destruct (IHs s st st1 seg1 H G env env1 HX1 p vs pre (seg2 ++ post)) as (vs1 & R1 & I1 & HM1); auto.
         { rewrite HP, <- !app_assoc. reflexivity. }
@@ -472,6 +422,78 @@ Proof.
         { lia. }
         exists vs2. split; [eapply reaches_trans; eauto|]. split; [rewrite I2, I1, app_length; lia|].
         apply (mstate_same_back G st st1); [exact S1|exact HM2].
+    + intros l els st st' End js seg HL. inversion HL; subst; intros G env env' HX p vs pre post HP HLen HK HI HM HSS HSD HDp HDo.
+      * (* no more conditions, no else *)
+        cbn [exec_c] in HX. inversion HX; subst. exists vs. split; [apply reaches_refl|]. split; [rewrite HI, HLen; reflexivity|exact HM].
+      * (* the else block *)
+        cbn [exec_c] in HX. unfold odepth in HDo.
+        match goal with HL0 : LAYL eb sty st' seg |- _ => destruct (IHl eb sty st' seg HL0 G env env' HX p vs pre post HP) as (vs3 & R3 & I3 & HM3) end; auto; [congruence|apply (mstate_same G st sty); assumption|apply (sym_static_same (csym st)); assumption|apply (slots_distinct_same (csym st)); assumption|].
+        exists vs3. split; [exact R3|]. split; [rewrite I3, HI, HLen; reflexivity|].
+        apply (mstate_same_back G st sty); assumption.
+      * (* a condition *)
+        cbn [exec_c] in HX. cbn [cdepth] in HDp. cbn [jshape] in H7.
+        destruct (lay_frame) as (_ & LF & LFc). destruct (LF _ _ _ _ H5) as [(nb & Kb) Sb]. destruct (LFc _ _ _ _ _ _ _ _ H11) as [(nr & Kr) Sr].
+        destruct (efrag_consts c st st1 H H0) as [(nc & K1) S1].
+        assert (HKb : consts_of p stb).
+        { apply (consts_of_prefix p stb st' nr); [rewrite Kr, H8; reflexivity|exact HK]. }
+        assert (HK1 : consts_of p st1).
+        { apply (consts_of_prefix p st1 stb nb); [rewrite Kb, H2; reflexivity|exact HKb]. }
+        pose proof (jbytes_len _ _ _ H6) as Ljf. pose proof (jbytes_len _ _ _ H7) as Lje.
+        pose proof (layl_len _ _ _ _ H5) as LLb.
+        destruct (eval_expr env c) as [[| [] | | | | |]|] eqn:HE; try discriminate.
+        -- pose proof (expr_runs G c st st1 seg_c env (VBool true) p vs pre (jf ++ seg_b ++ je ++ seg_r ++ post) H H0 H1 HE HSS
+                         ltac:(rewrite HP, <- !app_assoc; reflexivity) HK1 HI HM ltac:(lia)) as R1.
+           set (vs1 := {| ip := ip vs + N.of_nat (List.length seg_c); ostack := [VBool true]; locals := locals vs; globals := globals vs |}) in *.
+           pose proof (step_jof p vs1 (pre ++ seg_c) (seg_b ++ je ++ seg_r ++ post) jf _ true [] H6
+                         ltac:(rewrite HP, <- !app_assoc; reflexivity)
+                         ltac:(unfold vs1; simpl; rewrite HI, app_length; lia) eq_refl) as R2.
+           set (vs2 := {| ip := ip vs1 + 3; ostack := []; locals := locals vs1; globals := globals vs1 |}) in *.
+           destruct HM as (M1 & M2 & M3 & M4 & M5).
+           assert (HM2 : mstate_ok G stx env vs2).
+           { apply (mstate_same G st stx); [exact H3|]. unfold vs2, vs1; simpl. repeat split; auto. }
+           destruct (IHl b stx stb seg_b H5 G env env' HX p vs2 (pre ++ seg_c ++ jf) (je ++ seg_r ++ post)) as (vs3 & R3 & I3 & HM3).
+           { rewrite HP, <- !app_assoc. reflexivity. }
+           { rewrite !app_length, Ljf. apply Nat2N.inj. rewrite H4, H1, app_length, !Nat2N.inj_add, HLen. simpl. lia. }
+           { exact HKb. }
+           { unfold vs2, vs1; simpl. rewrite HI, !app_length, Ljf. lia. }
+           { exact HM2. }
+           { apply (sym_static_same (csym st)); assumption. }
+           { apply (slots_distinct_same (csym st)); assumption. }
+           { lia. }
+           pose proof (step_jump p vs3 (pre ++ seg_c ++ jf ++ seg_b) (seg_r ++ post) je _ H7
+                         ltac:(rewrite HP, <- !app_assoc; reflexivity)
+                         ltac:(rewrite I3; unfold vs2, vs1; simpl; rewrite HI, !app_length, Ljf; lia)) as R4.
+           eexists. split; [|split].
+           ++ eapply reaches_trans; [exact R1|]. eapply reaches_trans; [apply reaches_step; exact R2|].
+              eapply reaches_trans; [exact R3|apply reaches_step; exact R4].
+           ++ reflexivity.
+           ++ apply (mstate_same_back G st stx); [exact H3|]. destruct HM3 as (A3 & B3 & C3 & D3 & E3). simpl. repeat split; auto.
+        -- pose proof (expr_runs G c st st1 seg_c env (VBool false) p vs pre (jf ++ seg_b ++ je ++ seg_r ++ post) H H0 H1 HE HSS
+                         ltac:(rewrite HP, <- !app_assoc; reflexivity) HK1 HI HM ltac:(lia)) as R1.
+           set (vs1 := {| ip := ip vs + N.of_nat (List.length seg_c); ostack := [VBool false]; locals := locals vs; globals := globals vs |}) in *.
+           pose proof (step_jof p vs1 (pre ++ seg_c) (seg_b ++ je ++ seg_r ++ post) jf _ false [] H6
+                         ltac:(rewrite HP, <- !app_assoc; reflexivity)
+                         ltac:(unfold vs1; simpl; rewrite HI, app_length; lia) eq_refl) as R2.
+           set (vs2 := {| ip := N.of_nat (List.length (ccode st)) + N.of_nat (List.length (seg_c ++ jf ++ seg_b ++ je));
+                          ostack := []; locals := locals vs1; globals := globals vs1 |}) in *.
+           destruct HM as (M1 & M2 & M3 & M4 & M5).
+           assert (HM2 : mstate_ok G sty env vs2).
+           { apply (mstate_same G st sty); [exact H9|]. unfold vs2, vs1; simpl. repeat split; auto. }
+           destruct (IHc t els sty st' End js0 seg_r H11 G env env' HX p vs2 (pre ++ seg_c ++ jf ++ seg_b ++ je) post) as (vs3 & R3 & I3 & HM3).
+           { rewrite HP, <- !app_assoc. reflexivity. }
+           { assert (X : N.of_nat (List.length (ccode st1)) = N.of_nat (List.length (ccode st)) + N.of_nat (List.length seg_c)) by (rewrite H1, app_length; lia).
+             apply Nat2N.inj. rewrite !app_length, Ljf, Lje. lia. }
+           { exact HK. }
+           { unfold vs2; simpl. rewrite !app_length, HLen. lia. }
+           { exact HM2. }
+           { apply (sym_static_same (csym st)); assumption. }
+           { apply (slots_distinct_same (csym st)); assumption. }
+           { lia. }
+           { exact HDo. }
+           exists vs3. split; [|split].
+           ++ eapply reaches_trans; [exact R1|]. eapply reaches_trans; [apply reaches_step; exact R2|exact R3].
+           ++ exact I3.
+           ++ apply (mstate_same_back G st sty); [exact H9|exact HM3].
 Qed.
 
 (* ====================================================================== *)
@@ -481,12 +503,15 @@ Fixpoint wfrag_stmt (s : stmt) : bool :=
   match s with
   | SAssign (EVar _) e => efrag e
   | SEmpty => true
-  | SIf c b CNil els => efrag c && wfrag_slist b && match els with NoElse => true | Else eb => wfrag_slist eb end
+  | SIf c b elifs els =>
+      efrag c && wfrag_slist b && wfrag_clist elifs && match els with NoElse => true | Else eb => wfrag_slist eb end
   | SWhile c b => efrag c && wfrag_slist b
   | _ => false
   end
 with wfrag_slist (l : slist) : bool :=
-  match l with SNil => true | SCons s t => wfrag_stmt s && wfrag_slist t end.
+  match l with SNil => true | SCons s t => wfrag_stmt s && wfrag_slist t end
+with wfrag_clist (l : clist) : bool :=
+  match l with CNil => true | CCons c b t => efrag c && wfrag_slist b && wfrag_clist t end.
 
 Lemma patch_bytes pre a h l rest T s s' :
   ccode s = pre ++ a :: h :: l :: rest ->
@@ -614,96 +639,162 @@ Proof.
   - rewrite Sb. exact S1.
 Qed.
 
-Lemma lay_if_ok c b els st st' : efrag c = true -> slist_lay b ->
-  (match els with NoElse => True | Else eb => slist_lay eb end) ->
-  compile_stmt true (SIf c b CNil els) st = COk st' -> gsym (csym st) -> has_gb (csym st) ->
-  LAYOK (SIf c b CNil els) st st'.
+(* one `cond / block` (compileConditionalBlock): a builder for the head of a
+   chain whose end jump still holds the placeholder *)
+Lemma cond_lay c b st st1 : efrag c = true -> slist_lay b ->
+  compile_cond true c b st = COk st1 -> gsym (csym st) -> has_gb (csym st) ->
+  csym st1 = csym st /\ cbreaks st1 = cbreaks st /\
+  exists segh, ccode st1 = ccode st ++ segh /\
+    forall t els st' End js seg_r, LAYC false t els st1 st' End js seg_r ->
+      LAYC false (CCons c b t) els st st' End ((pos_of st1 - 3)%Z :: js) (segh ++ seg_r).
 Proof.
-  intros HF HB HE HC HG HGB. cbn [compile_stmt compile_elifs] in HC. rewrite compile_cond_body in HC.
-  destruct (compile_expr true c st) as [st1|] eqn:E1; [|discriminate]. cbn [bind] in HC.
-  destruct (emit true JumpOnFalse [JumpPlaceholderZ] st1) as [st2|] eqn:E2; [|discriminate]. cbn [bind] in HC.
+  intros HF HB HC HG HGB. rewrite compile_cond_body in HC.
+  destruct (compile_expr true c st) as [ste|] eqn:E1; [|discriminate]. cbn [bind] in HC.
+  destruct (emit true JumpOnFalse [JumpPlaceholderZ] ste) as [st2|] eqn:E2; [|discriminate]. cbn [bind] in HC.
   destruct (body_of true b (with_sym (st_push (csym st2)) st2)) as [st3|] eqn:E3; [|discriminate]. cbn [bind] in HC.
   destruct (emit true Jump [JumpPlaceholderZ] (with_sym (st_pop (csym st3)) st3)) as [st4|] eqn:E4; [|discriminate]. cbn [bind] in HC.
-  destruct (patch true (pos_of st1) (pos_of st4) st4) as [st5|] eqn:E5; [|discriminate]. cbn [bind] in HC.
-  destruct (efrag_sl c HF st st1 E1) as (S1 & ops & newc & C & K & _).
+  rename HC into E5.
+  destruct (efrag_sl c HF st ste E1) as (S1 & ops & newc & C & K & _).
   pose proof (efrag_breaks c HF _ _ E1) as B1.
   apply emit_hole_bytes in E2; [|reflexivity]. destruct E2 as (h0 & l0 & ->). cbn [csym] in E3.
   destruct (HB _ _ E3) as (seg_b & L & Cb & Bb & Sb); cbn [with_sym csym];
     [apply gsym_push; rewrite S1; exact HG|apply has_gb_push; rewrite S1; exact HGB|].
   cbn [with_sym ccode cconsts csym cbreaks] in Cb, Bb, Sb.
   apply emit_hole_bytes in E4; [|reflexivity]. destruct E4 as (h1 & l1 & ->). cbn [with_sym ccode cconsts csym cbreaks] in *.
-  assert (C4 : ccode st3 ++ [N_of_opc Jump; h1; l1] = ccode st1 ++ N_of_opc JumpOnFalse :: h0 :: l0 :: (seg_b ++ [N_of_opc Jump; h1; l1])).
+  assert (C4 : ccode st3 ++ [N_of_opc Jump; h1; l1] = ccode ste ++ N_of_opc JumpOnFalse :: h0 :: l0 :: (seg_b ++ [N_of_opc Jump; h1; l1])).
   { rewrite Cb, <- !app_assoc. reflexivity. }
   unfold pos_of at 1 in E5.
   match type of E5 with patch _ _ ?T0 ?s0 = _ =>
-    destruct (patch_bytes (ccode st1) _ h0 l0 (seg_b ++ [N_of_opc Jump; h1; l1]) T0 s0 st5 C4 E5) as (HT & hi & lo & EH & ->) end.
-  cbn [ccode cconsts csym cbreaks] in HC.
+    destruct (patch_bytes (ccode ste) _ h0 l0 (seg_b ++ [N_of_opc Jump; h1; l1]) T0 s0 st1 C4 E5) as (HT & hi & lo & EH & ->) end.
+  cbn [ccode cconsts csym cbreaks].
   set (jf := [N_of_opc JumpOnFalse; hi; lo]) in *.
-  set (stc := {| ccode := ccode st1 ++ N_of_opc JumpOnFalse :: hi :: lo :: seg_b ++ [N_of_opc Jump; h1; l1];
+  set (je := [N_of_opc Jump; h1; l1]) in *.
+  set (stc := {| ccode := ccode ste ++ N_of_opc JumpOnFalse :: hi :: lo :: seg_b ++ je;
                  cconsts := cconsts st3; csym := st_pop (csym st3); cbreaks := cbreaks st3 |}) in *.
   assert (Sc : csym stc = csym st) by (unfold stc; cbn [csym]; rewrite Sb, S1; apply pop_push_id; exact HG).
-  assert (EJ : (pos_of stc - 3)%Z = Z.of_nat (List.length (ccode st1 ++ jf ++ seg_b))).
-  { unfold pos_of, stc, jf. cbn [ccode]. rewrite ?app_length; simpl List.length; rewrite ?app_length; simpl List.length; lia. }
-  assert (JFT : N.of_nat (List.length (ccode st)) + N.of_nat (List.length (encode ops ++ jf ++ seg_b ++ [N_of_opc Jump; h1; l1])) = hi * 256 + lo).
-  { rewrite EH. unfold pos_of. cbn [ccode]. rewrite C4, C. rewrite ?app_length; simpl List.length; rewrite ?app_length; simpl List.length; lia. }
-  destruct els as [|eb].
-  - (* no else *)
-    cbn [bind] in HC. unfold patch_all in HC. cbn [fold_left bind] in HC. rewrite EJ in HC.
-    assert (CC : ccode stc = (ccode st1 ++ jf ++ seg_b) ++ N_of_opc Jump :: h1 :: l1 :: []).
-    { unfold stc, jf. cbn [ccode]. rewrite <- !app_assoc. reflexivity. }
-    match type of HC with patch _ _ ?T0 ?s0 = _ =>
-      destruct (patch_bytes _ _ h1 l1 [] T0 s0 st' CC HC) as (HT2 & hj & lj & EH2 & ->) end.
-    set (je := [N_of_opc Jump; hj; lj]).
-    exists (encode ops ++ jf ++ seg_b ++ je).
-    assert (LEN : N.of_nat (List.length (ccode st)) + N.of_nat (List.length (encode ops ++ jf ++ seg_b ++ je)) = hj * 256 + lj).
-    { rewrite EH2. unfold pos_of. rewrite CC, C. rewrite ?app_length; simpl List.length; rewrite ?app_length; simpl List.length; lia. }
-    split; [|split; [|split]].
-    + set (stx := {| ccode := ccode st1 ++ [N_of_opc JumpOnFalse; h0; l0]; cconsts := cconsts st1; csym := st_push (csym st1); cbreaks := cbreaks st1 |}) in *.
-      assert (F4 : cconsts stx = cconsts st1) by reflexivity.
-      assert (F5 : same_resolve (csym stx) (csym st)) by (intro n; unfold stx; cbn [csym]; rewrite resolve_push, S1; reflexivity).
-      assert (F6 : N.of_nat (List.length (ccode stx)) = N.of_nat (List.length (ccode st1)) + 3) by (unfold stx; cbn [ccode]; rewrite app_length; simpl; lia).
-      assert (F8 : jbytes JumpOnFalse (N.of_nat (List.length (ccode st)) + N.of_nat (List.length (encode ops ++ jf ++ seg_b ++ je))) jf).
-      { exists hi, lo. split; [reflexivity|]. rewrite <- JFT. unfold je. rewrite !app_length. reflexivity. }
-      assert (F9 : jbytes Jump (N.of_nat (List.length (ccode st)) + N.of_nat (List.length (encode ops ++ jf ++ seg_b ++ je))) je)
-        by (exists hj, lj; split; [reflexivity|rewrite LEN; reflexivity]).
-      refine (lay_if_noelse c b st st1 stx st3 _ (encode ops) seg_b jf je HF E1 C F4 F5 F6 L F8 F9 _ _).
-      * reflexivity.
-      * cbn [csym]. exact Sc.
-    + cbn [ccode]. rewrite C. unfold jf, je. rewrite <- !app_assoc. reflexivity.
-    + cbn [cbreaks]. unfold stc. cbn [cbreaks]. rewrite Bb. exact B1.
-    + cbn [csym]. exact Sc.
-  - (* else *)
-    destruct (compile_block true eb stc) as [ste|] eqn:E6; [|discriminate]. cbn [bind] in HC.
-    destruct (lay_block eb stc ste HE E6) as (sty & stee & seg_e & Le & Ky & Sy & Cy & Ce & Cee & Ke & Be & Se);
-      [rewrite Sc; exact HG|rewrite Sc; exact HGB|].
-    unfold patch_all in HC. cbn [fold_left bind] in HC. rewrite EJ in HC.
-    assert (CC : ccode ste = (ccode st1 ++ jf ++ seg_b) ++ N_of_opc Jump :: h1 :: l1 :: seg_e).
-    { rewrite Ce. unfold stc, jf. cbn [ccode]. rewrite <- ?app_assoc. cbn [app]. rewrite <- ?app_assoc. cbn [app]. reflexivity. }
-    match type of HC with patch _ _ ?T0 ?s0 = _ =>
-      destruct (patch_bytes _ _ h1 l1 seg_e T0 s0 st' CC HC) as (HT2 & hj & lj & EH2 & ->) end.
-    set (je := [N_of_opc Jump; hj; lj]).
-    exists (encode ops ++ jf ++ seg_b ++ je ++ seg_e).
-    assert (LEN : N.of_nat (List.length (ccode st)) + N.of_nat (List.length (encode ops ++ jf ++ seg_b ++ je ++ seg_e)) = hj * 256 + lj).
-    { rewrite EH2. unfold pos_of. rewrite CC, C. rewrite ?app_length; simpl List.length; rewrite ?app_length; simpl List.length; lia. }
-    split; [|split; [|split]].
-    + set (stx := {| ccode := ccode st1 ++ [N_of_opc JumpOnFalse; h0; l0]; cconsts := cconsts st1; csym := st_push (csym st1); cbreaks := cbreaks st1 |}) in *.
-      assert (F4 : cconsts stx = cconsts st1) by reflexivity.
-      assert (F5 : same_resolve (csym stx) (csym st)) by (intro n; unfold stx; cbn [csym]; rewrite resolve_push, S1; reflexivity).
-      assert (F6 : N.of_nat (List.length (ccode stx)) = N.of_nat (List.length (ccode st1)) + 3) by (unfold stx; cbn [ccode]; rewrite app_length; simpl; lia).
-      assert (G1 : cconsts sty = cconsts st3) by (rewrite Ky; unfold stc; reflexivity).
-      assert (G2 : same_resolve (csym sty) (csym st)) by (intro n; rewrite Sy, Sc; reflexivity).
-      assert (G3 : N.of_nat (List.length (ccode sty)) = N.of_nat (List.length (ccode st3)) + 3).
-      { rewrite Cy. unfold stc. cbn [ccode]. rewrite Cb. unfold stx. cbn [ccode]. rewrite ?app_length; simpl List.length; rewrite ?app_length; simpl List.length; lia. }
-      assert (F8 : jbytes JumpOnFalse (N.of_nat (List.length (ccode st)) + N.of_nat (List.length (encode ops ++ jf ++ seg_b ++ je))) jf).
-      { exists hi, lo. split; [reflexivity|]. rewrite <- JFT. unfold je. rewrite !app_length. reflexivity. }
-      assert (F9 : jbytes Jump (N.of_nat (List.length (ccode st)) + N.of_nat (List.length (encode ops ++ jf ++ seg_b ++ je ++ seg_e))) je)
-        by (exists hj, lj; split; [reflexivity|rewrite LEN; reflexivity]).
-      refine (lay_if_else c b eb st st1 stx st3 sty stee _ (encode ops) seg_b seg_e jf je HF E1 C F4 F5 F6 L G1 G2 G3 Le F8 F9 _ _).
-      * cbn [cconsts]. exact Ke.
-      * cbn [csym]. rewrite Se. exact Sc.
-    + cbn [ccode]. rewrite C. unfold jf, je. rewrite <- !app_assoc. reflexivity.
-    + cbn [cbreaks]. rewrite Be. unfold stc. cbn [cbreaks]. rewrite Bb. exact B1.
-    + cbn [csym]. rewrite Se. exact Sc.
+  assert (EJ : (pos_of stc - 3)%Z = Z.of_nat (List.length (ccode st) + List.length (encode ops ++ jf ++ seg_b))).
+  { unfold pos_of, stc, jf, je. cbn [ccode]. rewrite C. rewrite ?app_length; simpl List.length; rewrite ?app_length; simpl List.length; lia. }
+  assert (JFT : N.of_nat (List.length (ccode st)) + N.of_nat (List.length (encode ops ++ jf ++ seg_b ++ je)) = hi * 256 + lo).
+  { rewrite EH. unfold pos_of. cbn [ccode]. rewrite C4, C. unfold je. rewrite ?app_length; simpl List.length; rewrite ?app_length; simpl List.length; lia. }
+  split; [exact Sc|]. split; [unfold stc; cbn [cbreaks]; rewrite Bb; exact B1|].
+  exists (encode ops ++ jf ++ seg_b ++ je). split.
+  { unfold stc, jf. cbn [ccode]. rewrite C, <- !app_assoc. reflexivity. }
+  intros t els st' End js seg_r HT2. rewrite EJ, <- !app_assoc.
+  set (stx := {| ccode := ccode ste ++ [N_of_opc JumpOnFalse; h0; l0]; cconsts := cconsts ste; csym := st_push (csym ste); cbreaks := cbreaks ste |}) in *.
+  assert (F4 : cconsts stx = cconsts ste) by reflexivity.
+  assert (F5 : same_resolve (csym stx) (csym st)) by (intro n; unfold stx; cbn [csym]; rewrite resolve_push, S1; reflexivity).
+  assert (F6 : N.of_nat (List.length (ccode stx)) = N.of_nat (List.length (ccode ste)) + 3) by (unfold stx; cbn [ccode]; rewrite app_length; simpl; lia).
+  assert (F8 : jbytes JumpOnFalse (N.of_nat (List.length (ccode st)) + N.of_nat (List.length (encode ops ++ jf ++ seg_b ++ je))) jf).
+  { exists hi, lo. split; [reflexivity|]. rewrite <- JFT. reflexivity. }
+  assert (F9 : jshape false End je) by (exists h1, l1; reflexivity).
+  assert (G1 : cconsts stc = cconsts st3) by reflexivity.
+  assert (G2 : same_resolve (csym stc) (csym st)) by (apply same_resolve_eq; exact Sc).
+  assert (G3 : N.of_nat (List.length (ccode stc)) = N.of_nat (List.length (ccode st3)) + 3).
+  { unfold stc, je. cbn [ccode]. rewrite Cb. unfold stx. cbn [ccode]. rewrite ?app_length; simpl List.length; rewrite ?app_length; simpl List.length; lia. }
+  exact (layc_cons false c b t els st ste stx st3 stc st' End js (encode ops) seg_b jf je seg_r HF E1 C F4 F5 F6 L F8 F9 G1 G2 G3 HT2).
+Qed.
+
+Fixpoint clist_ok (l : clist) : Prop :=
+  match l with CNil => True | CCons c b t => efrag c = true /\ slist_lay b /\ clist_ok t end.
+
+(* the else-if blocks: the chain up to its (still unknown) tail *)
+Lemma elifs_lay : forall l, clist_ok l -> forall jumps st st2 js',
+  compile_elifs true l jumps st = (COk st2, js') -> gsym (csym st) -> has_gb (csym st) ->
+  csym st2 = csym st /\ cbreaks st2 = cbreaks st /\
+  exists js seg, js' = jumps ++ js /\ ccode st2 = ccode st ++ seg /\
+    forall els st' End seg_e, LAYC false CNil els st2 st' End [] seg_e ->
+      LAYC false l els st st' End js (seg ++ seg_e).
+Proof.
+  induction l as [|c b t IH]; intros HOK jumps st st2 js' HC HG HGB.
+  - cbn [compile_elifs] in HC. inversion HC; subst. split; [reflexivity|]. split; [reflexivity|].
+    exists [], []. split; [rewrite app_nil_r; reflexivity|]. split; [rewrite app_nil_r; reflexivity|].
+    intros els st' End seg_e HT. exact HT.
+  - destruct HOK as (HF & HB & HOK). cbn [compile_elifs] in HC.
+    destruct (compile_cond true c b st) as [st1|] eqn:E1; [|inversion HC].
+    destruct (cond_lay c b st st1 HF HB E1 HG HGB) as (S1 & B1 & segh & C1 & BUILD).
+    destruct (IH HOK _ _ _ _ HC) as (S2 & B2 & js & seg & EJ & C2 & TAIL); [rewrite S1; exact HG|rewrite S1; exact HGB|].
+    split; [congruence|]. split; [congruence|].
+    exists ((pos_of st1 - 3)%Z :: js), (segh ++ seg). split; [rewrite EJ, <- app_assoc; reflexivity|].
+    split; [rewrite C2, C1, app_assoc; reflexivity|].
+    intros els st' End seg_e HT. rewrite <- app_assoc. apply BUILD. apply TAIL. exact HT.
+Qed.
+
+(* the final patching of compileIfStatement turns the pending chain into the
+   final one; segment lengths and all compile-time states stay *)
+Lemma layc_patch : forall l els st st' End js seg, LAYC false l els st st' End js seg ->
+  forall T s s' pre post, Z.to_N T = End -> ccode s = pre ++ seg ++ post -> List.length pre = List.length (ccode st) ->
+  patch_all true js T s = COk s' ->
+  exists seg', ccode s' = pre ++ seg' ++ post /\ cconsts s' = cconsts s /\ csym s' = csym s /\ cbreaks s' = cbreaks s /\
+    List.length seg' = List.length seg /\ LAYC true l els st st' End js seg'.
+Proof.
+  induction l as [|c b t IH]; intros els st st' End js seg HL T s s' pre post HT HC HLen HP.
+  - inversion HL; subst; rewrite patch_all_nil in HP; inversion HP; subst s'.
+    + exists []. repeat split; auto. constructor; assumption.
+    + exists seg. repeat split; auto. econstructor; eauto.
+  - inversion HL; subst.
+    match goal with H : jshape false _ _ |- _ => cbn [jshape] in H; destruct H as (h0 & l0 & ->) end.
+    unfold patch_all in HP. cbn [fold_left bind] in HP.
+    match type of HP with fold_left _ _ ?X = _ => destruct X as [s1|e] eqn:E1; [|rewrite fold_cerr in HP; discriminate] end.
+    change (patch_all true js0 T s1 = COk s') in HP.
+    assert (CC : ccode s = (pre ++ seg_c ++ jf ++ seg_b) ++ N_of_opc Jump :: h0 :: l0 :: (seg_r ++ post)).
+    { rewrite HC, <- !app_assoc. reflexivity. }
+    assert (EL : (List.length (ccode st) + List.length (seg_c ++ jf ++ seg_b))%nat = List.length (pre ++ seg_c ++ jf ++ seg_b)).
+    { rewrite (app_length pre), HLen. reflexivity. }
+    rewrite EL in E1.
+    destruct (patch_bytes _ _ h0 l0 (seg_r ++ post) T s s1 CC E1) as (HTr & hi & lo & EH & ->).
+    match goal with HJ : jbytes JumpOnFalse _ jf |- _ => pose proof (jbytes_len _ _ _ HJ) as Ljf end.
+    match goal with HB : LAYL b stx stb seg_b |- _ => pose proof (layl_len _ _ _ _ HB) as LLb end.
+    match goal with H1 : ccode st1 = ccode st ++ seg_c |- _ => pose proof (f_equal (@List.length N) H1) as L1; rewrite app_length in L1 end.
+    match type of HP with patch_all _ _ _ ?s1 = _ => set (s1v := s1) in * end.
+    lazymatch goal with HT2 : LAYC false t els sty st' _ js0 seg_r |- _ =>
+      destruct (IH els sty st' _ js0 seg_r HT2 T s1v s' (pre ++ seg_c ++ jf ++ seg_b ++ [N_of_opc Jump; hi; lo]) post eq_refl) as
+        (seg_r' & C' & K' & S' & B' & L' & LY'); [unfold s1v; cbn [ccode]; rewrite <- !app_assoc; reflexivity| |exact HP|] end.
+    { apply Nat2N.inj. rewrite !app_length, Ljf. simpl List.length. lia. }
+    unfold s1v in *. cbn [ccode cconsts csym cbreaks] in *.
+    exists (seg_c ++ jf ++ seg_b ++ [N_of_opc Jump; hi; lo] ++ seg_r').
+    split; [rewrite C', <- !app_assoc; reflexivity|]. split; [exact K'|]. split; [exact S'|]. split; [exact B'|].
+    split; [rewrite !app_length, L'; reflexivity|].
+    eapply layc_cons; try eassumption.
+    + match goal with HJ : jbytes JumpOnFalse ?X jf |- jbytes JumpOnFalse ?Y jf => replace Y with X; [exact HJ|] end.
+      rewrite !app_length. reflexivity.
+    + cbn [jshape]. exists hi, lo. split; [reflexivity|exact EH].
+Qed.
+Lemma lay_if_ok c b elifs els st st' : efrag c = true -> slist_lay b -> clist_ok elifs ->
+  (match els with NoElse => True | Else eb => slist_lay eb end) ->
+  compile_stmt true (SIf c b elifs els) st = COk st' -> gsym (csym st) -> has_gb (csym st) ->
+  LAYOK (SIf c b elifs els) st st'.
+Proof.
+  intros HF HB HEL HE HC HG HGB. cbn [compile_stmt] in HC.
+  destruct (compile_cond true c b st) as [st1|] eqn:E1; [|discriminate]. cbn [bind] in HC.
+  destruct (compile_elifs true elifs [(pos_of st1 - 3)%Z] st1) as [r jumps] eqn:E2.
+  destruct r as [st2|]; [|discriminate]. cbn [bind] in HC.
+  destruct (cond_lay c b st st1 HF HB E1 HG HGB) as (S1 & B1 & segh & C1 & BUILD).
+  destruct (elifs_lay elifs HEL _ _ _ _ E2) as (S2 & B2 & js & seg2 & EJ & C2 & TAIL); [rewrite S1; exact HG|rewrite S1; exact HGB|].
+  subst jumps. cbn [app] in HC.
+  assert (TAILOK : exists st3 ste End seg_e,
+            (match els with NoElse => COk st2 | Else eb => compile_block true eb st2 end) = COk st3 /\
+            LAYC false CNil els st2 ste End [] seg_e /\ ccode st3 = ccode st2 ++ seg_e /\
+            End = N.of_nat (List.length (ccode st3)) /\ cconsts st3 = cconsts ste /\ csym st3 = csym st2 /\ cbreaks st3 = cbreaks st2).
+  { destruct els as [|eb].
+    - exists st2, st2, (N.of_nat (List.length (ccode st2))), []. repeat split; auto; [constructor; reflexivity|rewrite app_nil_r; reflexivity].
+    - destruct (compile_block true eb st2) as [st3|] eqn:E6; [|discriminate]. cbn [bind] in HC.
+      destruct (lay_block eb st2 st3 HE E6) as (sty & stee & seg_e & Le & Ky & Sy & Cy & Ce & Cee & Ke & Be & Se);
+        [rewrite S2, S1; exact HG|rewrite S2, S1; exact HGB|].
+      exists st3, stee, (N.of_nat (List.length (ccode st2)) + N.of_nat (List.length seg_e)), seg_e.
+      split; [reflexivity|]. split; [apply (layc_nil_else false eb st2 sty stee _ seg_e Ky Sy (f_equal (@List.length N) Cy) Le eq_refl)|].
+      split; [exact Ce|]. split; [rewrite Ce, app_length, Nat2N.inj_add; reflexivity|]. auto. }
+  destruct TAILOK as (st3 & ste & End & seg_e & E3 & LT & C3 & EE & K3 & S3 & B3). rewrite E3 in HC. cbn [bind] in HC.
+  pose proof (BUILD _ _ _ _ _ _ (TAIL _ _ _ _ LT)) as LC.
+  destruct (layc_patch _ _ _ _ _ _ _ LC (pos_of st3) st3 st' (ccode st) []) as (seg' & C' & K' & S' & B' & L' & LY).
+  { unfold pos_of. rewrite EE. lia. }
+  { rewrite C3, C2, C1, app_nil_r, <- !app_assoc. reflexivity. }
+  { reflexivity. }
+  { exact HC. }
+  rewrite app_nil_r in C'.
+  exists seg'. split; [|split; [exact C'|split; congruence]].
+  eapply lay_if; [|rewrite K'; exact K3|congruence].
+  replace (N.of_nat (List.length (ccode st)) + N.of_nat (List.length seg')) with End; [exact LY|].
+  rewrite EE, C3, C2, C1, L', !app_length, !Nat2N.inj_add. lia.
 Qed.
 
 (* ---------- every statement of the fragment ---------- *)
@@ -711,15 +802,16 @@ Theorem lay_all :
   (forall s, wfrag_stmt s = true -> forall st st', compile_stmt true s st = COk st' ->
              gsym (csym st) -> has_gb (csym st) -> LAYOK s st st') /\
   (forall l, wfrag_slist l = true -> slist_lay l) /\
-  (forall l : clist, True) /\
+  (forall l, wfrag_clist l = true -> clist_ok l) /\
   (forall o, match o with NoElse => True | Else b => wfrag_slist b = true -> slist_lay b end).
 Proof.
   apply stmt_mutind; try (intros; exact I).
   - intros n e HF. discriminate.
   - intros target e HF st st' HC HG HGB. destruct target; try discriminate HF. apply (lay_assign_ok n e st st' HF HC HGB).
-  - intros c b Hb elifs _ els Ho HF st st' HC HG HGB. cbn [wfrag_stmt] in HF. destruct elifs; [|discriminate].
-    apply andb_true_iff in HF. destruct HF as [HF F3]. apply andb_true_iff in HF. destruct HF as [F1 F2].
-    apply (lay_if_ok c b els st st' F1 (Hb F2)); auto. destruct els; [exact I|apply Ho; exact F3].
+  - intros c b Hb elifs Hc els Ho HF st st' HC HG HGB. cbn [wfrag_stmt] in HF.
+    apply andb_true_iff in HF. destruct HF as [HF F4]. apply andb_true_iff in HF. destruct HF as [HF F3].
+    apply andb_true_iff in HF. destruct HF as [F1 F2].
+    apply (lay_if_ok c b elifs els st st' F1 (Hb F2) (Hc F3)); auto. destruct els; [exact I|apply Ho; exact F4].
   - intros c b Hb HF st st' HC HG HGB. cbn [wfrag_stmt] in HF. apply andb_true_iff in HF. destruct HF as [F1 F2].
     apply (lay_while_ok c b st st' F1 (Hb F2) HC HG HGB).
   - intros lv a b c d _ HF. discriminate.
@@ -737,6 +829,9 @@ Proof.
     destruct (Ht F2 st1 st' HC) as (seg2 & L2 & C2 & B2 & S2); [rewrite S1; exact HG|rewrite S1; exact HGB|].
     exists (seg1 ++ seg2). split; [|split; [rewrite C2, C1, app_assoc; reflexivity|split; congruence]].
     eapply layl_cons; eauto. rewrite C1, app_length, Nat2N.inj_add. reflexivity.
+  - intros c b Hb t Ht HF. cbn [wfrag_clist] in HF.
+    apply andb_true_iff in HF. destruct HF as [HF F3]. apply andb_true_iff in HF. destruct HF as [F1 F2].
+    cbn [clist_ok]. auto.
   - intros b Hb. exact Hb.
 Qed.
 
